@@ -189,8 +189,19 @@ impl ConsumerGroup {
         // Ensure consumer exists
         self.create_consumer(consumer.to_string());
         
+        let mut consumers = self.consumers.write().unwrap();
+        let mut redelivered = 0;
+        
         // Add each entry to pending list
         for entry in &entries {
+            // An ID that is pending already (the cursor was moved back) changes owner instead of being counted twice
+            if let Some(previous) = pending.remove_entry(&entry.id) {
+                if let Some(owner) = consumers.get_mut(&previous.consumer) {
+                    owner.pending_count = owner.pending_count.saturating_sub(1);
+                }
+                redelivered += 1;
+            }
+            
             let pending_entry = PendingEntry {
                 id: entry.id,
                 consumer: consumer.to_string(),
@@ -203,7 +214,6 @@ impl ConsumerGroup {
         }
         
         // Update consumer's pending count
-        let mut consumers = self.consumers.write().unwrap();
         if let Some(consumer_obj) = consumers.get_mut(consumer) {
             consumer_obj.pending_count += entries.len();
             consumer_obj.last_seen = now;
@@ -212,7 +222,7 @@ impl ConsumerGroup {
         
         // Update total pending
         let mut total = self.total_pending.lock().unwrap();
-        *total += entries.len();
+        *total += entries.len() - redelivered;
         
         // Update last delivered ID
         if let Some(last_entry) = entries.last() {
